@@ -133,7 +133,8 @@ ExitOk == /\ phase = "run" /\ frames # <<>>
           /\ UNCHANGED <<stor, bal, live, logs, tstore, access, journal, tx, nframes, nmut, lastFail>>
           /\ Finish("ok")
 
-ExitFail(mode) ==
+(* a frame ends with an error: undo the journal down to the frame's snapshot *)
+FailBody(mode, toks, dm) ==
   /\ phase = "run" /\ frames # <<>>
   /\ (mode = "codestore" => Top.kind = "create")
   /\ LET keep == AsCoded /\ mode = "codestore"       \* as coded: a creation that cannot pay the code deposit is not reverted
@@ -142,15 +143,25 @@ ExitFail(mode) ==
         /\ journal' = IF keep THEN journal ELSE SubSeq(journal, 1, Top.jidx)
         /\ lastFail' = <<st, Top.ghost>>
   /\ frames' = SubSeq(frames, 1, Len(frames) - 1)
-  /\ H([op |-> "fail", mode |-> mode])
-  /\ UNCHANGED <<access, tx, nframes, nmut>>
+  /\ hist' = hist \o toks
+  /\ nmut' = nmut + dm
+  /\ UNCHANGED <<access, tx, nframes>>
   /\ Finish("fail")
+
+ExitFail(mode) == FailBody(mode, <<[op |-> "fail", mode |-> mode]>>, 0)
+
+(* a state-modifying instruction attempted in static context (at any depth below the static frame): *)
+(* it is refused, which ends the frame that attempted it with an error                           *)
+StaticAttempt(m) ==
+  /\ InStatic /\ nmut < MaxMuts
+  /\ FailBody("fault", <<[op |-> m, a |-> 1, v |-> 1], [op |-> "fail", mode |-> "write"]>>, 1)
 
 Next == \/ TxBegin
         \/ \E k \in Kinds, a \in Accts : Enter(k, a)
         \/ \E a \in Accts, v \in {0, 1} : SStore(a, v) \/ TStore(a, v)
         \/ \E a \in Accts : Log(a) \/ Destroy(a) \/ (\E b \in Accts : Transfer(a, b))
         \/ ExitOk \/ \E m \in FailModes : ExitFail(m)
+        \/ \E m \in {"sstore", "tstore", "log", "transfer", "destroy"} : StaticAttempt(m)
 Spec == Init /\ [][Next]_vars
 
 (* -------------------------------------------------------------- properties *)
